@@ -1075,6 +1075,9 @@ class Interp:
                 key = ("cls:" + ci.qualname, attr)
                 if key in self.heap:
                     return self.heap[key]
+                shared = self.class_level_object(ca[1], attr, ca[0])
+                if shared is not None:
+                    return shared
                 return Term("attr", base, attr)
             return Term("attr", base, attr)
         if isinstance(base, Const):
@@ -1115,9 +1118,24 @@ class Interp:
                 cv = self.p.const_value(ca[1].module, ca[0], ca[1])
                 if cv is not UNKNOWN:
                     return to_value(cv)
+                shared = self.class_level_object(ca[1], attr, ca[0])
+                if shared is not None:
+                    return shared
             hint = self.attr_hint(ci, attr)
             return self.cached_attr(base, attr, hint)
         return self.cached_attr(base, attr, None)
+
+    def class_level_object(self, owner: ClassInfo, attr: str, expr):
+        """A mutable literal bound in a class body ({} / [] / set() / dict() / list()) is ONE object shared by the class
+        and all its instances: evaluate it once per interpreter run and keep it."""
+        is_lit = isinstance(expr, (ast.Dict, ast.List, ast.Set)) or (
+            isinstance(expr, ast.Call) and isinstance(expr.func, ast.Name) and expr.func.id in ("dict", "list", "set") and not expr.args and not expr.keywords)
+        if not is_lit:
+            return None
+        key = ("cls:" + owner.qualname, attr)
+        if key not in self.heap:
+            self.heap[key] = self.eval_in_module(owner.module, expr)
+        return self.heap[key]
 
     def cached_attr(self, base, attr, hint):
         """Plain attribute reads of the same object return the same Term until the attribute
